@@ -64,6 +64,27 @@ fn main() {
                 break;
             }
         }
+        // every string literal of the grammar: used as separators between seed pieces, so that what lies just beyond the end
+        // of a sub-range is often the beginning of something the grammar cares about (terminators, keywords, brackets)
+        let mut literals: BTreeSet<String> = BTreeSet::new();
+        for r in rules.iter() {
+            for e in r.expr.iter_top_down() {
+                match e {
+                    Expr::Str(t) | Expr::Insens(t) => {
+                        if !t.is_empty() && t.len() <= 8 {
+                            literals.insert(t);
+                        }
+                    }
+                    Expr::Skip(ts) => {
+                        for t in ts {
+                            literals.insert(t);
+                        }
+                    }
+                    _ => {}
+                }
+            }
+        }
+        let literals: Vec<String> = literals.into_iter().collect();
         let seeds_path = format!("{verif}/corpus/{name}.seeds");
         println!("cargo:rerun-if-changed={seeds_path}");
         let seeds = fs::read_to_string(&seeds_path).unwrap_or_default();
@@ -101,8 +122,9 @@ fn main() {
         }
         writeln!(out, "    ] }}").unwrap();
         writeln!(out, "    pub const SEEDS: &str = {seeds:?};").unwrap();
+        writeln!(out, "    pub const LITERALS: &[&str] = &{literals:?};").unwrap();
         writeln!(out, "}}").unwrap();
-        writeln!(tables, "    v.push(crate::table::Grammar {{ name: {name:?}, entries: g_{name}::table(), seeds: crate::table::parse_seeds(g_{name}::SEEDS) }});").unwrap();
+        writeln!(tables, "    v.push(crate::table::Grammar {{ name: {name:?}, entries: g_{name}::table(), seeds: crate::table::parse_seeds(g_{name}::SEEDS), literals: g_{name}::LITERALS }});").unwrap();
     }
     writeln!(out, "pub fn grammars() -> Vec<crate::table::Grammar> {{\n    let mut v = Vec::new();\n{tables}    v\n}}").unwrap();
     let dst = PathBuf::from(env::var("OUT_DIR").unwrap()).join("gen.rs");
